@@ -91,7 +91,13 @@ def main():
     def imp(names, tag):
         for n in names:
             try:
-                m = importlib.import_module(n)
+                if n.startswith("reload:"):
+                    m = importlib.reload(sys.modules[n[7:]])          # importlib.reload of a module that is already loaded
+                elif n.startswith("evict:"):
+                    sys.modules.pop(n[6:], None)                      # dropped from sys.modules, imported afresh
+                    m = importlib.import_module(n[6:])
+                else:
+                    m = importlib.import_module(n)
                 res["ns"][n] = namespace(m)
             except BaseException as e:
                 res["errors"].append([tag, n, type(e).__name__, str(e)[:200], traceback.format_exc()[-600:]])
